@@ -178,6 +178,49 @@ def run(ctx):
                 else:
                     ctx.ok(R_ent, {"type": label, "fn": meth, "layout": got})
 
+    # entry layouts, writer side: every loop that serialises entry fields (write_uNN_le(e.f) / extend_from_slice(&e.f.to_le_bytes()))
+    R_entw = ctx.rule("C02.table-entry-writers", "every loop serialising hash/block entry fields emits them in format order with format widths", floor=5)
+    adt_w = {}
+    for a in mpq.items["adts"]:
+        if a["path"] in (M + "tables::hash::HashEntry", M + "tables::block::BlockEntry"):
+            adt_w[a["path"].split("::")[-1]] = {fl["name"]: wire.ty_width(fl["ty"]) for fl in a["fields"]}
+    layouts = {"hash entry": (ref.HASH_ENTRY, adt_w.get("HashEntry", {})), "block entry": (ref.BLOCK_ENTRY, adt_w.get("BlockEntry", {}))}
+    for f in mpq.fn_list:
+        if f.kind == "Closure" or not f.hir or "::tests::" in f.path or "::debug::" in f.path or "::test_utils::" in f.path:
+            continue
+        for loop in hirq.find(f.hir["body"], "for"):
+            seq = []
+            for c in hirq.walk(loop["body"]):
+                if c.get("k") != "mcall" or not c.get("args"):
+                    continue
+                a0 = hirq.strip(c["args"][0])
+                while a0 and a0.get("k") == "cast":
+                    a0 = hirq.strip(a0["e"])
+                mw = re.match(r"write_[ui](8|16|32|64)(_le)?$", c["m"])
+                if mw and a0 and a0.get("k") == "field":
+                    seq.append((a0["name"], int(mw.group(1)) // 8, c["ln"]))
+                elif c["m"] in ("extend_from_slice", "write_all") and a0 and a0.get("k") == "mcall" and a0["m"] == "to_le_bytes" and hirq.strip(a0["recv"]).get("k") == "field":
+                    seq.append((hirq.strip(a0["recv"])["name"], None, c["ln"]))
+            for label, (want, widths) in layouts.items():
+                wn = [n for n, _ in want]
+                mine = [(n, w if w is not None else widths.get(n), ln) for n, w, ln in seq if n in wn]
+                if len(mine) < 3:
+                    continue
+                if {n for n, _, _ in mine} != set(wn):
+                    # a partial projection of the entry (the simplified BET file table) is not the classic 16-byte entry —
+                    # unless the same function derives the classic table's key, in which case a field is missing
+                    lits = {hirq.lit_str(hirq.strip(c["args"][0])) for c in hirq.calls(f.hir["body"]) if (c.get("fn") or "").endswith("hash_string") and c.get("args")}
+                    if not (lits & set(ref.TABLE_KEY_NAMES.values())):
+                        continue
+                ctx.saw_fn(f)
+                key = "%s|%s" % (norm(f.path).replace(M, ""), label)
+                got = [(n, w) for n, w, _ in mine]
+                if got == [(n, w) for n, w in want]:
+                    ctx.ok(R_entw, {"fn": norm(f.path), "type": label, "line": mine[0][2], "layout": got})
+                else:
+                    ctx.bad(R_entw, key, "%s:%d" % (f.file, mine[0][2]), "%s serialised as %s; the format is %s" % (label, got, want),
+                            "equal-width entry fields are swapped (or mis-sized) relative to the format: another implementation reads one as the other")
+
     # table key names
     for f in mpq.fn_list:
         if f.kind == "Closure" or not f.hir or "::tests::" in f.path or "::debug::" in f.path or "crypto::hash" in f.path:
@@ -218,6 +261,38 @@ def run(ctx):
         else:
             ctx.bad(R_key, key, "%s:%d" % (f.file, ln), "file key = hash_string(%s, FILE_KEY) on the full archive path" % arg,
                     "the format derives the key from the file name without its directory: encrypted files inside directories written by (or for) other implementations cannot be decrypted")
+
+    # position operand of the adjusted key: offset of the file's data relative to the archive start (not the absolute file offset)
+    R_pos = ctx.rule("C02.fix-key-position-is-archive-relative", "the position added into an adjusted key is the block's offset from the archive start: `seek position - archive_offset` (or the block entry's own relative field)", floor=3)
+    from . import c03 as _c03
+    for path in ("archive::Archive::read_file", "archive::Archive::read_file_by_indices", "archive::Archive::read_patch_file_raw"):
+        f = fns.get(M + path)
+        if f is None:
+            ctx.bad(R_pos, "%s|missing" % path, "-", "function not found", "anchor gone")
+            continue
+        inline = _c03.make_inliner(f.hir["body"])
+        seeks = set()
+        for c in hirq.calls(f.hir["body"]):
+            if (c.get("fn") or "").endswith("SeekFrom::Start") and c.get("args"):
+                seeks.add(hirq.render(hirq.strip(c["args"][0])))
+        keyx = [x for x in hirq.walk(f.hir["body"]) if x.get("k") == "bin" and x["op"] == "^" and "wrapping_add" in hirq.render(x)]
+        if not keyx:
+            ctx.bad(R_pos, "%s|no-formula" % path.split("::")[-1], f.where, "no (key + pos) ^ size expression", "FIX_KEY files cannot be decrypted here")
+            continue
+        for x in keyx:
+            wa = next((c for c in hirq.walk(x) if c.get("k") == "mcall" and c["m"] == "wrapping_add"), None)
+            pos = inline(wa["args"][0])
+            while pos.get("k") == "cast" or (pos.get("k") == "block" and not pos.get("stmts")):
+                pos = hirq.strip(pos["e"])
+            key = "%s|key-position" % path.split("::")[-1]
+            where = "%s:%d" % (f.file, x["ln"])
+            if pos.get("k") == "bin" and pos["op"] == "-" and "archive_offset" in hirq.render(pos["r"]) and hirq.render(hirq.strip(pos["l"])) in seeks:
+                ctx.ok(R_pos, {"fn": path, "position": hirq.render(pos)})
+            elif pos.get("k") == "field" and "BlockEntry" in str(mpq.ty(hirq.strip(pos["e"]).get("t")) if hirq.strip(pos["e"]).get("t") is not None else ""):
+                ctx.ok(R_pos, {"fn": path, "position": hirq.render(pos), "relative_field": True})
+            else:
+                ctx.bad(R_pos, key, where, "adjusted key adds `%s`; data is read at SeekFrom::Start(%s)" % (hirq.render(pos), ", ".join(sorted(seeks))[:80]),
+                        "the format adds the block's offset from the start of the archive; with the absolute file offset every FIX_KEY file in an archive that does not start at offset 0 (embedded / user-data-prefixed) decrypts to garbage")
 
     # tail rule
     for path in ("builder::ArchiveBuilder::encrypt_data", "archive::decrypt_file_data", "tables::common::decrypt_table_data"):
